@@ -359,6 +359,36 @@ pub fn minimise_and_report(p: &HistProp, seed: u64, tier: Tier, block_first: u64
             }
         }
     }
+    // 4c. shrink the device paths that are rendered (drop characters while it still fails)
+    for pi in 1..shrunk.paths.len() {
+        let used = shrunk.ops.iter().any(|o| matches!(o, Op::Render { path, .. } if *path == pi));
+        if !used {
+            continue;
+        }
+        let chars: Vec<char> = shrunk.paths[pi].chars().collect();
+        if chars.len() < 2 {
+            continue;
+        }
+        let base = shrunk.clone();
+        let mut err = None;
+        let kept = coord::ddmin(&chars, |cand| {
+            let mut c = base.clone();
+            c.paths[pi] = cand.iter().collect();
+            let mut all = prefix.clone();
+            all.push(c);
+            match m.fails(&all) {
+                Ok(b) => b,
+                Err(e) => {
+                    err = Some(e);
+                    false
+                }
+            }
+        });
+        if let Some(e) = err {
+            return Err(e);
+        }
+        shrunk.paths[pi] = kept.into_iter().collect();
+    }
     let failing = shrunk.clone();
     let ops = shrunk.ops.clone();
     // 5. drop subjects and paths no operation refers to (indices are remapped)
